@@ -17,6 +17,8 @@ func init() {
 			// control frames are routed to the handlers by these helpers
 			helperReadDataRules(c, "C08")
 			helperReadMessageRules(c, "C08")
+			// the control frames the handlers see passed CheckHeader first (125-byte limit, final, masking)
+			c03CheckHeader(c)
 		},
 	})
 }
